@@ -20,5 +20,14 @@ pub mod sc {
     /// positioned on a readable byte (the terminating NUL has not been consumed)
     pub open spec fn live(s: Scanner) -> bool { wf(s) && s.ofs < s.buf@.len() }
     pub open spec fn cur(s: Scanner) -> u8 { s.buf@[s.ofs as int] }
+    pub open spec fn tok(buf: Seq<u8>, a: int, b: int) -> Seq<u8> { buf.subrange(a, b) }
+    /// where back() lands when called at offset o (> 0)
+    pub open spec fn back_to(buf: Seq<u8>, o: int) -> int { if o >= 2 && buf[o - 1] == 10u8 && buf[o - 2] == 13u8 { o - 2 } else { o - 1 } }
+    /// depfile token delimiter at position j: NUL, space, newline, or a backslash-newline continuation
+    pub open spec fn dep_delim(buf: Seq<u8>, j: int) -> bool {
+        buf[j] == 0u8 || buf[j] == 32u8 || buf[j] == 10u8 || (buf[j] == 92u8 && j + 1 < buf.len() && buf[j + 1] == 10u8)
+    }
+    /// not on the '\n' of a "\r\n" pair (where back() would step over both bytes)
+    pub open spec fn settled(s: Scanner) -> bool { !(s.ofs > 0 && s.ofs < s.buf@.len() && s.buf@[s.ofs as int] == 10u8 && s.buf@[s.ofs - 1] == 13u8) }
     }
 }
